@@ -383,5 +383,6 @@ func extractBufioWriterBuf(bw *bufio.Writer, w io.Writer) []byte {
 }
 
 func (c *Conn) writeError(code StatusCode, err error) {
+	c.readErr = err
 	c.writeClose(code, err.Error())
 }
